@@ -68,33 +68,45 @@ theorem parseOne_parsed_fields (u : UInfo) (s : Naming) (path key : Str) (op : R
 
 /-! ### The response loop -/
 
-def StatusKey.isInt : StatusKey → Bool
-  | .intKey _ => true
+def StatusKey.isBad : StatusKey → Bool
+  | .badKey _ => true
+  | .intKey _ => false
   | .strKey _ => false
 
-theorem respError_of_int (opId : Str) (ks : List StatusKey) (h : ks.any StatusKey.isInt = true) :
+theorem respError_of_bad (opId : Str) (ks : List StatusKey) (h : ks.any StatusKey.isBad = true) :
     respError opId ks ≠ none := by
   induction ks with
   | nil => simp at h
   | cons k rest ih =>
     cases k with
-    | intKey i => simp [respError]
+    | badKey r => simp [respError]
     | strKey t =>
-      simp only [List.any_cons, StatusKey.isInt, Bool.false_or] at h
+      simp only [List.any_cons, StatusKey.isBad, Bool.false_or] at h
+      simp only [respError]
+      split
+      · simp
+      · exact ih h
+    | intKey i =>
+      simp only [List.any_cons, StatusKey.isBad, Bool.false_or] at h
       simp only [respError]
       split
       · simp
       · exact ih h
 
 theorem respError_none_of_str (opId : Str) (ks : List StatusKey) (hne : opId ≠ [])
-    (h : ks.any StatusKey.isInt = false) : respError opId ks = none := by
+    (h : ks.any StatusKey.isBad = false) : respError opId ks = none := by
   induction ks with
   | nil => rfl
   | cons k rest ih =>
     cases k with
-    | intKey i => simp [StatusKey.isInt] at h
+    | badKey r => simp [StatusKey.isBad] at h
     | strKey t =>
-      simp only [List.any_cons, StatusKey.isInt, Bool.false_or] at h
+      simp only [List.any_cons, StatusKey.isBad, Bool.false_or] at h
+      have : opId.isEmpty = false := by cases opId <;> simp_all
+      simp only [respError, this]
+      exact ih h
+    | intKey i =>
+      simp only [List.any_cons, StatusKey.isBad, Bool.false_or] at h
       have : opId.isEmpty = false := by cases opId <;> simp_all
       simp only [respError, this]
       exact ih h
@@ -102,8 +114,8 @@ theorem respError_none_of_str (opId : Str) (ks : List StatusKey) (hne : opId ≠
 theorem respError_nil (opId : Str) : respError opId [] = none := rfl
 
 /-- An operation with a non-string status key is never parsed. -/
-theorem parseOne_int_key (u : UInfo) (s : Naming) (path key : Str) (op : RawOp)
-    (h : op.responses.any StatusKey.isInt = true) (o : IROp) :
+theorem parseOne_bad_key (u : UInfo) (s : Naming) (path key : Str) (op : RawOp)
+    (h : op.responses.any StatusKey.isBad = true) (o : IROp) :
     parseOne u s path key op ≠ .parsed o := by
   intro hp
   have ⟨hr, _⟩ := parseOne_parsed_fields u s path key op o hp
@@ -111,7 +123,7 @@ theorem parseOne_int_key (u : UInfo) (s : Naming) (path key : Str) (op : RawOp)
   by_cases hx : op.parseRaises = true
   · simp [hx] at hp
   · simp only [hx] at hp
-    have := respError_of_int (chooseOpId s (u.upperS key) path op.operationId) op.responses h
+    have := respError_of_bad (chooseOpId s (u.upperS key) path op.operationId) op.responses h
     cases hre : respError (chooseOpId s (u.upperS key) path op.operationId) op.responses with
     | none => exact this hre
     | some r => simp [hre] at hp
@@ -207,36 +219,36 @@ theorem parseOps_keeps_all (u : UInfo) (s : Naming) (paths : Paths)
 
 /-! ### Operations with a non-string status key are invisible -/
 
-def hasIntKey (op : RawOp) : Bool := op.responses.any StatusKey.isInt
+def hasBadKey (op : RawOp) : Bool := op.responses.any StatusKey.isBad
 
 /-- The document with every operation that has a non-string status key removed. -/
-def eraseIntKeyOps (paths : Paths) : Paths :=
-  paths.map (fun p => (p.1, p.2.filter (fun e => !hasIntKey e.2)))
+def eraseBadKeyOps (paths : Paths) : Paths :=
+  paths.map (fun p => (p.1, p.2.filter (fun e => !hasBadKey e.2)))
 
 theorem parseItem_erase (u : UInfo) (s : Naming) (path : Str) (item : PathItem) :
-    (parseItem u s path (item.filter (fun e => !hasIntKey e.2))).1 = (parseItem u s path item).1 := by
+    (parseItem u s path (item.filter (fun e => !hasBadKey e.2))).1 = (parseItem u s path item).1 := by
   induction item with
   | nil => rfl
   | cons e rest ih =>
     obtain ⟨k, op⟩ := e
-    cases hk : hasIntKey op with
+    cases hk : hasBadKey op with
     | true =>
       simp only [List.filter_cons, hk, Bool.not_true, Bool.false_eq_true, if_false, ih, parseItem]
       cases hp : parseOne u s path k op with
       | skipped => rfl
       | dropped w => rfl
-      | parsed o => exact absurd hp (parseOne_int_key u s path k op hk o)
+      | parsed o => exact absurd hp (parseOne_bad_key u s path k op hk o)
     | false =>
       simp only [List.filter_cons, hk, Bool.not_false, if_true, parseItem, ih]
       cases hp : parseOne u s path k op <;> simp [ih]
 
 theorem parseOps_erase (u : UInfo) (s : Naming) (paths : Paths) :
-    (parseOps u s (eraseIntKeyOps paths)).1 = (parseOps u s paths).1 := by
+    (parseOps u s (eraseBadKeyOps paths)).1 = (parseOps u s paths).1 := by
   induction paths with
   | nil => rfl
   | cons p rest ih =>
     obtain ⟨path, item⟩ := p
-    simp only [eraseIntKeyOps, List.map_cons, parseOps] at ih ⊢
+    simp only [eraseBadKeyOps, List.map_cons, parseOps] at ih ⊢
     rw [parseItem_erase, ih]
 
 /-! ### Which operations raise: the exact input class -/
@@ -327,20 +339,20 @@ theorem chooseOpId_eq_nil_iff (s : Naming) (mu path : Str) (d : Option Str) (h :
          · simp [hid, cleanOpId_ne_nil _ _ _ hid])
 
 theorem respError_ne_none_iff (opId : Str) (ks : List StatusKey) :
-    respError opId ks ≠ none ↔ ks.any StatusKey.isInt = true ∨ (opId = [] ∧ ks ≠ []) := by
+    respError opId ks ≠ none ↔ ks.any StatusKey.isBad = true ∨ (opId = [] ∧ ks ≠ []) := by
   constructor
   · intro h
-    by_cases hi : ks.any StatusKey.isInt = true
+    by_cases hi : ks.any StatusKey.isBad = true
     · exact Or.inl hi
     · right
-      have hi : ks.any StatusKey.isInt = false := by simpa using hi
+      have hi : ks.any StatusKey.isBad = false := by simpa using hi
       by_cases ho : opId = []
       · refine ⟨ho, ?_⟩
         rintro rfl
         exact h rfl
       · exact absurd (respError_none_of_str opId ks ho hi) h
   · rintro (h | ⟨ho, hk⟩)
-    · exact respError_of_int opId ks h
+    · exact respError_of_bad opId ks h
     · subst ho
       cases ks with
       | nil => exact absurd rfl hk
@@ -352,7 +364,7 @@ theorem respError_ne_none_iff (opId : Str) (ks : List StatusKey) :
 theorem opRaises_iff (u : UInfo) (s : Naming) (path key : Str) (op : RawOp) :
     opRaises u s path key op = true ↔
       recognised u key = true ∧
-        (op.parseRaises = true ∨ hasIntKey op = true ∨
+        (op.parseRaises = true ∨ hasBadKey op = true ∨
           (s ≠ .path ∧ op.operationId = some [] ∧ op.responses ≠ [])) := by
   unfold opRaises
   cases hr : recognised u key with
@@ -364,7 +376,7 @@ theorem opRaises_iff (u : UInfo) (s : Naming) (path key : Str) (op : RawOp) :
     · simp [hx]
     · have hre := respError_ne_none_iff (chooseOpId s (u.upperS key) path op.operationId) op.responses
       rw [chooseOpId_eq_nil_iff s _ path _ hmem] at hre
-      simp only [hx, Bool.false_eq_true, if_false, true_and, false_or, hasIntKey]
+      simp only [hx, Bool.false_eq_true, if_false, true_and, false_or, hasBadKey]
       cases hc : respError (chooseOpId s (u.upperS key) path op.operationId) op.responses with
       | none =>
         simp only [hc, ne_eq, not_true_eq_false, false_iff, not_or] at hre
@@ -635,6 +647,7 @@ theorem clientMethods_count (u : UInfo) (direct : Bool) (ops : List IROp) (key :
 def quoteKey : StatusKey → StatusKey
   | .strKey t => .strKey t
   | .intKey i => .strKey (toString i).toList
+  | .badKey r => .strKey r
 
 def quoteOp (op : RawOp) : RawOp := { op with responses := op.responses.map quoteKey }
 
@@ -642,37 +655,49 @@ def quoteOp (op : RawOp) : RawOp := { op with responses := op.responses.map quot
 def quoteKeys (paths : Paths) : Paths :=
   paths.map (fun p => (p.1, p.2.map (fun e => (e.1, quoteOp e.2))))
 
-theorem map_quoteKey_of_no_int (ks : List StatusKey) (h : ks.any StatusKey.isInt = false) :
-    ks.map quoteKey = ks := by
+/-- Quoting does not change what the response loop does when no key is a non-string, non-integer one: an integer key takes
+    the same path as the string key it is read as (F16 repaired). -/
+theorem respError_quote (opId : Str) (ks : List StatusKey) (h : ks.any StatusKey.isBad = false) :
+    respError opId (ks.map quoteKey) = respError opId ks := by
   induction ks with
   | nil => rfl
   | cons k rest ih =>
     cases k with
-    | intKey i => simp [StatusKey.isInt] at h
+    | badKey r => simp [StatusKey.isBad] at h
     | strKey t =>
-      simp only [List.any_cons, StatusKey.isInt, Bool.false_or] at h
-      simp [quoteKey, ih h]
+      simp only [List.any_cons, StatusKey.isBad, Bool.false_or] at h
+      simp only [List.map_cons, quoteKey, respError, ih h]
+    | intKey i =>
+      simp only [List.any_cons, StatusKey.isBad, Bool.false_or] at h
+      simp only [List.map_cons, quoteKey, respError, ih h]
 
-theorem quoteOp_of_no_int (op : RawOp) (h : hasIntKey op = false) : quoteOp op = op := by
-  unfold quoteOp
-  rw [map_quoteKey_of_no_int _ h]
+theorem parseOne_quote (u : UInfo) (s : Naming) (path key : Str) (op : RawOp) (h : hasBadKey op = false) :
+    parseOne u s path key (quoteOp op) = parseOne u s path key op := by
+  unfold parseOne quoteOp
+  simp only [respError_quote _ _ h]
 
-theorem map_quoteOp_of_no_int (item : PathItem) (h : item.all (fun e => !hasIntKey e.2) = true) :
-    item.map (fun e => (e.1, quoteOp e.2)) = item := by
+theorem parseItem_quote (u : UInfo) (s : Naming) (path : Str) (item : PathItem)
+    (h : item.all (fun e => !hasBadKey e.2) = true) :
+    parseItem u s path (item.map (fun e => (e.1, quoteOp e.2))) = parseItem u s path item := by
   induction item with
   | nil => rfl
-  | cons e es ihe =>
+  | cons e rest ih =>
+    obtain ⟨k, op⟩ := e
     simp only [List.all_cons, Bool.and_eq_true, Bool.not_eq_true'] at h
-    rw [List.map_cons, ihe h.2, quoteOp_of_no_int _ h.1]
+    simp only [List.map_cons, parseItem, parseOne_quote u s path k op h.1, ih h.2]
 
-theorem quoteKeys_of_no_int (paths : Paths)
-    (h : paths.all (fun p => p.2.all (fun e => !hasIntKey e.2)) = true) : quoteKeys paths = paths := by
-  unfold quoteKeys
+/-- The JSON reading and the unquoted-YAML reading of a document give the same operations and the same warnings,
+    as long as no status key is a float / bool / null. -/
+theorem parseOps_quote (u : UInfo) (s : Naming) (paths : Paths)
+    (h : paths.all (fun p => p.2.all (fun e => !hasBadKey e.2)) = true) :
+    parseOps u s (quoteKeys paths) = parseOps u s paths := by
   induction paths with
   | nil => rfl
   | cons p rest ih =>
+    obtain ⟨path, item⟩ := p
     simp only [List.all_cons, Bool.and_eq_true] at h
-    rw [List.map_cons, ih h.2, map_quoteOp_of_no_int _ h.1]
+    simp only [quoteKeys, List.map_cons, parseOps] at ih ⊢
+    rw [parseItem_quote u s path item h.1, ih h.2]
 
 theorem parseItem_quote_sublist (u : UInfo) (s : Naming) (path : Str) (item : PathItem) :
     (parseItem u s path item).1.Sublist (parseItem u s path (item.map (fun e => (e.1, quoteOp e.2)))).1 := by
@@ -681,9 +706,9 @@ theorem parseItem_quote_sublist (u : UInfo) (s : Naming) (path : Str) (item : Pa
   | cons e rest ih =>
     obtain ⟨k, op⟩ := e
     simp only [List.map_cons, parseItem]
-    cases hk : hasIntKey op with
+    cases hk : hasBadKey op with
     | true =>
-      have hnp : ∀ o, parseOne u s path k op ≠ .parsed o := parseOne_int_key u s path k op hk
+      have hnp : ∀ o, parseOne u s path k op ≠ .parsed o := parseOne_bad_key u s path k op hk
       cases hp : parseOne u s path k op with
       | parsed o => exact absurd hp (hnp o)
       | skipped =>
@@ -697,7 +722,7 @@ theorem parseItem_quote_sublist (u : UInfo) (s : Naming) (path : Str) (item : Pa
         | skipped => exact ih
         | dropped w => exact ih
     | false =>
-      rw [quoteOp_of_no_int op hk]
+      rw [parseOne_quote u s path k op hk]
       cases parseOne u s path k op with
       | parsed o => exact List.Sublist.cons_cons _ ih
       | skipped => exact ih
